@@ -1,0 +1,12 @@
+//go:build verif
+
+package curried
+
+// Contracts for package curried, checked by /verif/govc.  Comment-only file.
+
+//@ schema N=2..9
+//@ lemma func{N}Def[<<i=1..N|, |A$i>>, R any](f func(<<i=1..N|, |A$i>>) R, <<i=1..N|, |a$i A$i>>)
+//@   prop C14
+//@   ensures EqT(Func{N}(f)<<i=1..N||(a$i)>>, f(<<i=1..N|, |a$i>>))
+//@   ensures Eq(Revert{N}(Func{N}(f)), f)
+//@ schema end
